@@ -31,17 +31,17 @@ TOL = 1e-6
 def gen_cases(tier, seed):
     rng = np.random.default_rng(seed + 91)
     cases = []
-    for i in range(60 if tier == "quick" else 800):
+    for i in range(60 if tier == "quick" else 2500):
         D = 1 if i % 3 else 2
         cases.append({"kind": "rows", "cfg": dzoo.sample_program_flow(rng, D), "seed": env.subseed(seed, "c04r", i),
                       "world": "f64", "cost": 2})
-    for i in range(10 if tier == "quick" else 100):
+    for i in range(10 if tier == "quick" else 300):
         cfg = dzoo.sample_flow_cfg(rng, D=int(rng.integers(2, 4)), ctx=0)
         if cfg["flow"] == "generic":
             cfg = {"flow": "maf", "D": 3, "hidden": 8, "layers": 2, "blocks": 1, "residual": True, "random_perm": bool(i % 2),
                    "bn_between": bool(i % 3 == 0), "ctx": 0}
         cases.append({"kind": "rows", "cfg": cfg, "seed": env.subseed(seed, "c04p", i), "world": "f64", "cost": 2})
-    for i in range(16 if tier == "quick" else 160):
+    for i in range(16 if tier == "quick" else 300):
         cases.append({"kind": "ks", "cfg": dzoo.sample_program_flow(rng, 1), "seed": env.subseed(seed, "c04k", i), "world": "f64",
                       "nsamp": 200000 if tier == "quick" else 2000000, "cost": 8})
     return cases
